@@ -234,6 +234,26 @@ def size_symbols(leaves):
     return list(out.values())
 
 
+def default_ufun_axioms(terms):
+    """elementary facts about the uninterpreted real functions that stand for sqrt / exp / cos / sin, added whenever
+    the function occurs: without them a counter-model may simply pick sqrt(1) = 7 (a spurious refutation)"""
+    from . import values as V
+    out = []
+    x = z3.Real("ax_x")
+    if _mentions_decl(terms, "u_sqrt"):
+        f = lambda t: V.ufun("sqrt", t)         # noqa: E731
+        out += [f(z3.RealVal(0)) == 0, f(z3.RealVal(1)) == 1,
+                z3.ForAll([x], z3.Implies(x >= 0, z3.And(f(x) >= 0, f(x) * f(x) == x)), patterns=[f(x)])]
+    if _mentions_decl(terms, "u_exp"):
+        f = lambda t: V.ufun("exp", t)          # noqa: E731
+        out += [f(z3.RealVal(0)) == 1, z3.ForAll([x], f(x) > 0, patterns=[f(x)])]
+    if _mentions_decl(terms, "u_cos") or _mentions_decl(terms, "u_sin"):
+        c_ = lambda t: V.ufun("cos", t)         # noqa: E731
+        s_ = lambda t: V.ufun("sin", t)         # noqa: E731
+        out += [c_(z3.RealVal(0)) == 1, s_(z3.RealVal(0)) == 0]
+    return out
+
+
 def _mentions_decl(terms, name):
     stack, seen = list(terms), set()
     while stack:
@@ -458,6 +478,7 @@ def _solve_inner(idx):
     for h in ob.hyps:
         s.add(h)
     plain_axioms, sum_axioms = extra_axioms if isinstance(extra_axioms, tuple) else (extra_axioms, [])
+    plain_axioms = list(plain_axioms) + default_ufun_axioms(list(ob.hyps) + [ob.goal])
     for a in plain_axioms:
         s.add(a)
     goal, sks = skolemize_goal(ob.goal)
